@@ -787,7 +787,7 @@ ScheduleX(s, e, t, g0, relax, relax20) ==
        IN /\ d.batch \in {n, n + 1}
           /\ (e.name # "EndBlock" \/ c.state # "running") => d.batch = n
           \* no batch beyond the total
-          /\ (d.batch = n + 1 /\ c.total >= 1) =>
+          /\ (d.batch = n + 1 /\ c.total >= 1 /\ ~Get(g0.modified, id, FALSE)) =>
                \/ n < c.total
                \/ relax /\ Get(g0.intr, id, FALSE)
           \* batch n+1 exactly freq after batch n ...
